@@ -48,7 +48,7 @@ PStep(S, m0, e) ==
     [] e.e = "pipeline" ->
          LET a == Check(m, "StageNumMonotone", TRUE, e.stage >= m.pstage /\ e.stage <= S.n + 1)
              \* the recorded current stage moves on only after the previous stage's submission is complete
-             b == Check(a, "StageAdvancesAfterComplete", e.stage > 1 /\ e.stage > m.pstage, e.stage = m.pstage + 1 /\ m.complete[e.stage - 1])
+             b == Check(a, "StageAdvancesAfterComplete", e.stage > 1 /\ e.stage > m.pstage, e.stage = m.pstage + 1 /\ (e.stage - 1) \in 1..S.n /\ m.complete[e.stage - 1])
              \* return codes of finished stages match what happened; later ones are unset
              c == Check(b, "ReturnCodesMatch", Len(e.rcs) = S.n,
                         \A k \in 1..S.n : IF k < e.stage THEN (m.missing[k] >= 0 /\ e.rcs[k] = ExpectedRc(m, k)) ELSE e.rcs[k] = -1)
